@@ -296,3 +296,121 @@ func allImmutable(o tengo.Object) bool {
 	}
 	return true
 }
+
+// nestCtors: container constructors around an inner expression @
+var nestCtors = []string{"[@, b]", "{k: @, j: b}", "immutable([@, b])", "immutable({k: @, j: b})", "[b, [@]]"}
+
+// C09_FreezeNest: every nesting of up to three container constructors
+// (mutable or shallow-immutable arrays and maps) around a leaf: freeze(o)
+// equals o, leaves o unchanged, everything reachable from the result is
+// immutable, and writes through o afterwards do not reach the result.
+func C09_FreezeNest() {
+	depth := 1 + vf.Choice("depth", 3)
+	expr := "a"
+	for k := 0; k < depth; k++ {
+		expr = substAt(nestCtors[vf.Choice("ctor"+string(rune('0'+k)), len(nestCtors))], expr)
+	}
+	s := tengo.NewScript([]byte(`o := ` + expr + `
+before := copy(o)
+f := freeze(o)
+eq := f == o
+same_after := o == before
+snap := copy(f)
+`))
+	a, b := vf.Int64("a"), vf.Int64("b")
+	_ = s.Add("a", a)
+	_ = s.Add("b", b)
+	cc, err := s.Compile()
+	vf.Assert(err == nil, "freeze script compiles: "+expr)
+	rerr, panicked, _ := RunGuarded(cc)
+	vf.Assert(rerr == nil && !panicked, "freeze script runs: "+expr)
+	vf.Assert(cc.Get("eq").Bool(), "freeze(o) == o: "+expr)
+	vf.Assert(cc.Get("same_after").Bool(), "freeze does not modify its argument: "+expr)
+	f := cc.Get("f").Object()
+	vf.Assert(allImmutable(f), "everything reachable from freeze(o) is immutable: "+expr)
+	// overwrite every mutable container reachable from o in place
+	scribble(cc.Get("o").Object(), 0)
+	vf.Assert(sameLoose(f, cc.Get("snap").Object()), "writes through the argument after freeze do not reach the frozen value: "+expr)
+	vf.Reach("freezenest")
+}
+
+// scribble overwrites the elements of every mutable container reachable from o.
+func scribble(o tengo.Object, depth int) {
+	if depth > 6 {
+		return
+	}
+	switch x := o.(type) {
+	case *tengo.Array:
+		for _, e := range x.Value {
+			scribble(e, depth+1)
+		}
+		for i := range x.Value {
+			x.Value[i] = &tengo.String{Value: "scribbled"}
+		}
+	case *tengo.Map:
+		for _, e := range x.Value {
+			scribble(e, depth+1)
+		}
+		for k := range x.Value {
+			x.Value[k] = &tengo.String{Value: "scribbled"}
+		}
+	case *tengo.ImmutableArray:
+		for _, e := range x.Value {
+			scribble(e, depth+1)
+		}
+	case *tengo.ImmutableMap:
+		for _, e := range x.Value {
+			scribble(e, depth+1)
+		}
+	}
+}
+
+// sameLoose: structural equality that ignores whether a container is the
+// mutable or the immutable variant (copy() yields mutable containers).
+func sameLoose(a, b tengo.Object) bool {
+	elems := func(o tengo.Object) ([]tengo.Object, bool) {
+		switch x := o.(type) {
+		case *tengo.Array:
+			return x.Value, true
+		case *tengo.ImmutableArray:
+			return x.Value, true
+		}
+		return nil, false
+	}
+	fields := func(o tengo.Object) (map[string]tengo.Object, bool) {
+		switch x := o.(type) {
+		case *tengo.Map:
+			return x.Value, true
+		case *tengo.ImmutableMap:
+			return x.Value, true
+		}
+		return nil, false
+	}
+	if xa, ok := elems(a); ok {
+		xb, ok2 := elems(b)
+		if !ok2 || len(xa) != len(xb) {
+			return false
+		}
+		acc := true
+		for i := range xa {
+			acc = vf.And(acc, sameLoose(xa[i], xb[i]))
+		}
+		return acc
+	}
+	if ma, ok := fields(a); ok {
+		mb, ok2 := fields(b)
+		if !ok2 || len(ma) != len(mb) {
+			return false
+		}
+		acc := true
+		for k, va := range ma {
+			vb, ok3 := mb[k]
+			if !ok3 {
+				return false
+			}
+			acc = vf.And(acc, sameLoose(va, vb))
+		}
+		return acc
+	}
+	return Same(a, b)
+}
